@@ -20,6 +20,7 @@ RULE = (
     "Non-trivial = an iteration whose beta_t < 1 was chosen by the search (feasible, not forced); counted per iteration, "
     "distinct = (case hash, iteration)."
 )
+RULE += " " + ('Also generated: runs on a sampler object that has already completed an unrelated run with another (ramped / scalar) target; another output namespace.')
 ASSUMPTIONS = [
     "ESS(b) is monotone non-increasing in b, so the feasible set is an interval (used to state maximality at beta_t + tol only)",
     "reference ESS in float64 with relative slack 64*N*eps(width) + 64*eps*(max|incremental log w|+1); float32 populations have |log w| <= 10",
